@@ -406,3 +406,87 @@ Qed.
 Theorem cpp_set_uxx_offset_wrap_refuted :
   exists s value len, span_okb s = true /\ sp_bits s < len /\ cpp_set_uxx s value len = None.
 Proof. exists (mkspan [0; 0] 2 (two64 - 8)), 255, 16. vm_compute. repeat split. Qed.
+
+(* degenerate bit lengths on the Python side: 0-bit unsigned and 0-/1-bit signed arguments violate the `assert bit_length >= 1`
+   (resp. `>= 2`) of the source and raise (None), on both classes, aligned or not; in C/C++ a 0-bit store writes nothing and a
+   0-bit load returns 0 (instances of set_uxx_exact / get_uxx_spec) *)
+Theorem py_degenerate_lengths_raise s d value (z : Z) bits :
+  add_unaligned_unsigned s value 0 = None /\ add_aligned_unsigned s value 0 = None /\
+  (bits < 2 -> add_unaligned_signed s z bits = None /\ add_aligned_signed s z bits = None /\
+               fetch_unaligned_signed d bits = None /\ fetch_aligned_signed d bits = None) /\
+  fetch_unaligned_unsigned d 0 = None /\ fetch_aligned_unsigned d 0 = None.
+Proof.
+  split; [reflexivity|]. split; [unfold add_aligned_unsigned; destruct (negb _); reflexivity|]. split.
+  - intros Hb. unfold add_unaligned_signed, add_aligned_signed, fetch_unaligned_signed, fetch_aligned_signed.
+    replace (bits <? 2) with true by (symmetry; apply N.ltb_lt; exact Hb). repeat split.
+  - split.
+    + unfold fetch_unaligned_unsigned. change ((0 + 7) / 8) with 0. unfold fetch_unaligned_bytes. cbn [N.ltb]. reflexivity.
+    + unfold fetch_aligned_unsigned. destruct (negb _); [reflexivity|]. change ((0 + 7) / 8) with 0.
+      destruct (get_unsigned_slice _ _ _); reflexivity.
+Qed.
+
+(* ---------------------------------------------------------------------------------------------
+   C++ subspan(bits) / subspan_bytes(n) of the current source (pointer clamped to one past the end) *)
+Theorem subspan_clamped_spec s bits :
+  span_ok s -> sp_off s + bits < two64 ->
+  let k := (sp_off s + bits) / 8 in
+  let s' := subspan_clamped s bits in
+  sp_data s' = skipn (N.to_nat (N.min k (sp_size s))) (sp_data s) /\ sp_off s' = (sp_off s + bits) mod 8 /\
+  sp_size s' = sp_size s - k /\ span_ok s' /\
+  (forall p, bit (sp_data s') p = bit (sp_data s) (8 * N.min k (sp_size s) + p)) /\
+  sp_bits s' = sp_size s * 8 - (sp_off s + bits) /\
+  (k <= sp_size s -> s' = subspan s bits /\ 8 * k + sp_off s' = sp_off s + bits).
+Proof.
+  intros (S1 & S2 & S3) Hw k s'. subst s'. unfold subspan_clamped, subspan. rewrite (w64_small (sp_off s + bits)) by exact Hw. fold k.
+  assert (T64 : two64 = 18446744073709551616) by reflexivity.
+  assert (Hsz : (if k <? sp_size s then sp_size s - k else 0) = sp_size s - k) by (destruct (N.ltb_spec k (sp_size s)); lia).
+  rewrite Hsz. cbn [sp_data sp_off sp_size].
+  replace (sp_size s - (sp_size s - k)) with (N.min k (sp_size s)) by lia.
+  split; [reflexivity|]. split; [reflexivity|]. split; [reflexivity|]. split.
+  { unfold span_ok. cbn [sp_data sp_off sp_size]. unfold blen in *. rewrite skipn_length.
+    pose proof (N.mod_lt (sp_off s + bits) 8). lia. }
+  split; [intros p; apply bit_skipn|]. split.
+  { unfold sp_bits. cbn [sp_size sp_off]. rewrite w64_small by lia.
+    destruct (N.ltb_spec ((sp_size s - k) * 8) ((sp_off s + bits) mod 8)); subst k; lia. }
+  intros Hk. split; [|subst k; lia]. replace (N.min k (sp_size s)) with k by lia. reflexivity.
+Qed.
+
+Theorem subspan_bytes_clamped_spec s size_bytes :
+  span_ok s ->
+  let k := N.min (sp_off s / 8) (sp_size s) in
+  let s' := subspan_bytes_clamped s size_bytes in
+  sp_data s' = skipn (N.to_nat k) (sp_data s) /\ sp_off s' = sp_off s mod 8 /\
+  sp_size s' = N.min size_bytes (sp_size s - sp_off s / 8) /\ span_ok s'.
+Proof.
+  intros Hs. pose proof Hs as (S1 & S2 & S3).
+  destruct (subspan_clamped_spec s 0 Hs ltac:(lia)) as (H1 & H2 & H3 & H4 & _).
+  rewrite N.add_0_r in *. unfold subspan_bytes_clamped. cbn [sp_data sp_off sp_size]. rewrite H1, H2, H3.
+  split; [reflexivity|]. split; [reflexivity|]. split; [destruct (N.ltb_spec size_bytes (sp_size s - sp_off s / 8)); lia|].
+  destruct H4 as (A & B & C). rewrite H1 in A, B. rewrite H2 in C. rewrite H3 in A.
+  unfold span_ok. cbn [sp_data sp_off sp_size]. split; [|split; assumption].
+  destruct (N.ltb_spec size_bytes (sp_size s - sp_off s / 8)); lia.
+Qed.
+
+Theorem subspans_clamped_spec_b s bits size_bytes bits_at size_bits :
+  span_okb s = true -> (sp_off s + bits <? two64) && (sp_off s + bits_at <? two64) && (size_bits + 8 <? two64) = true ->
+  (let k := (sp_off s + bits) / 8 in
+   let s' := subspan_clamped s bits in
+   sp_data s' = skipn (N.to_nat (N.min k (sp_size s))) (sp_data s) /\ sp_off s' = (sp_off s + bits) mod 8 /\
+   sp_size s' = sp_size s - k /\ span_ok s' /\
+   (forall p, bit (sp_data s') p = bit (sp_data s) (8 * N.min k (sp_size s) + p)) /\
+   sp_bits s' = sp_size s * 8 - (sp_off s + bits) /\
+   (k <= sp_size s -> s' = subspan s bits /\ 8 * k + sp_off s' = sp_off s + bits)) /\
+  (let s' := subspan_bytes_clamped s size_bytes in
+   sp_data s' = skipn (N.to_nat (N.min (sp_off s / 8) (sp_size s))) (sp_data s) /\ sp_off s' = sp_off s mod 8 /\
+   sp_size s' = N.min size_bytes (sp_size s - sp_off s / 8) /\ span_ok s') /\
+  (let k := (sp_off s + bits_at) / 8 in
+   let o := (sp_off s + bits_at) mod 8 in
+   if (sp_size s <? k) || ((sp_size s - k) * 8 <? o + size_bits)
+   then subspan2 s bits_at size_bits = inr TooSmall
+   else subspan2 s bits_at size_bits = inl (mkspan (skipn (N.to_nat k) (sp_data s)) ((o + size_bits) / 8) o) /\
+        k + (o + size_bits) / 8 <= sp_size s).
+Proof.
+  intros Hb H. apply span_okb_ok in Hb as [Hs _]. apply andb_prop in H as [H H3]. apply andb_prop in H as [H1 H2].
+  apply N.ltb_lt in H1, H2, H3.
+  split; [apply subspan_clamped_spec; assumption|]. split; [apply subspan_bytes_clamped_spec; assumption|apply subspan2_spec; assumption].
+Qed.
